@@ -21,7 +21,7 @@ MEMBERS = ['M', 'N', 'MM']
 PATHS = ['/', '/a', '/a/b', '/a/bc', '/a/b/c', '/ab', '/a/b/c/d']
 NAMESPACES = ['/', '/a', '/a/b', '/a/b/c', '/ab', '/x']
 DESTS = [':1.1', ':1.2', 'org.verif.D']
-ARGS = ['x', 'y', '', 'xy', "it's", 'a,b', 'k=v']
+ARGS = ['x', 'y', '', 'xy', "it's", 'a,b', 'k=v', '42', '7', 'True']      # (some read like the text of a number or a boolean)
 ARG_PATHS = ['/', '/a/', '/a/b', '/a/b/', '/a/bc', '/a/b/c', '/a/b/c/']
 TYPES = ['signal', 'method_call', 'method_return', 'error']
 SENDER = ':1.5'
@@ -130,7 +130,9 @@ def gen_message(r, rules, force_signal=False):
                 if choice == 0:
                     b = b[:idx]                     # argument missing
                 elif choice == 1:
-                    b[idx] = 42                     # non-string argument
+                    # a non-string argument - where the rule value reads like a number, THAT number
+                    v_ = rule['args'][idx]
+                    b[idx] = int(v_) if v_.isdigit() else 42
                 elif choice == 2:
                     b[idx] = rule['args'][idx] + 'z'
                 else:
